@@ -22,3 +22,16 @@ pub fn vx_str_len(s: &str) -> (r: usize) ensures r == s.spec_bytes().len() { s.a
 // anonymous lifetime binders that an assume_specification cannot name
 #[verifier::external_body]
 pub fn vx_string_from(s: &str) -> (r: String) ensures r@ == s@ { String::from(s) }
+// a String is its contents: no specification in these units observes anything else (capacity, address)
+#[verifier::external_body]
+pub broadcast proof fn axiom_string_ext(a: String, b: String)
+    ensures #[trigger] a@ == #[trigger] b@ ==> a == b,
+{}
+// UTF-8 encoding is injective (vstd: decode_utf8(encode_utf8(s)) == s)
+pub proof fn lemma_utf8_injective(a: Seq<char>, b: Seq<char>)
+    requires vstd::utf8::encode_utf8(a) == vstd::utf8::encode_utf8(b),
+    ensures a == b,
+{
+    vstd::utf8::encode_utf8_decode_utf8(a);
+    vstd::utf8::encode_utf8_decode_utf8(b);
+}
